@@ -70,6 +70,9 @@ func runC01(c *Ctx) {
 	c.r0122(pk)
 	c.r0124(pk)
 	c.r0125(pk)
+	c.r0126(pk)
+	c.r0127(pk)
+	c.r0128(pk)
 	// a hoisted `var` whose name collides with a lexical binding of an intermediate block is an early error: the
 	// script no longer loads (same rule as R02.5)
 	c.alsoUnder(map[string]string{"R02.5": "R01.23"}, nil, func() { c.r025(pk) })
@@ -1854,6 +1857,15 @@ func init() {
 	mutant(&Mutant{Name: "c01-object-pattern-values-skipped", Property: "C01", File: "js/vars.go",
 		Old: "\t\t\tif item.Value.Binding != nil {\n\t\t\t\tvs = append(vs, bindingVars(item.Value.Binding)...)\n\t\t\t}", New: "\t\t\tif v, ok := item.Value.Binding.(*js.Var); ok {\n\t\t\t\tvs = append(vs, v)\n\t\t\t}",
 		Rule: "R01.13", Construct: "bindingVars/case *js.BindingObject"})
+	mutant(&Mutant{Name: "c01-empty-else-hides-dangling-if", Property: "C01", File: "js/util.go",
+		Old: "\t\tif isEmptyStmt(stmt.Else) { // an empty else is not written\n", New: "\t\tif stmt.Else == nil {\n",
+		Rule: "R01.26", Construct: "missing else judged like the printer"})
+	mutant(&Mutant{Name: "c01-same-constant-twice-folds-to-loose-null", Property: "C01", File: "js/util.go",
+		Old: "if leftVar != nil && leftVar == rightVar && (left.Op == eqEqOp || right.Op == eqEqOp || leftNull != rightNull) {", New: "if leftVar != nil && leftVar == rightVar && (left.Op == eqEqOp || right.Op == eqEqOp || leftNull || !rightNull) {",
+		Rule: "R01.27", Construct: "names both constants"})
+	mutant(&Mutant{Name: "c01-math-round-replaced-by-bit-or", Property: "C01", File: "js/js.go",
+		Old: "} else if bytes.Equal(dot.Y.Data, []byte(\"trunc\")) {", New: "} else if bytes.Equal(dot.Y.Data, []byte(\"trunc\")) || bytes.Equal(dot.Y.Data, []byte(\"floor\")) {",
+		Rule: "R01.28", Construct: "Math.floor replaced only by an identity"})
 	mutant(&Mutant{Name: "c01-cond-merge-under-wider-equality", Property: "C01", File: "js/util.go",
 		Old: "\t} else if isEqualExpr(finalCond, expr.Y) && (exprPrec(finalCond)", New: "\t} else if (isEqualExpr(finalCond, expr.Y) || isBooleanExpr(expr.Y)) && (exprPrec(finalCond)",
 		Rule: "R01.25", Construct: "omits Y only with a licence"})
